@@ -168,10 +168,23 @@ fn run_case(case: &Value) -> Value {
     #[cfg(wgsl_to_wgpu_verif)]
     wgsl_to_wgpu::verif_hooks::reset_counters();
     let t_gen = std::time::Instant::now();
+    // `path_env`: PATH for the duration of THIS call only (a transient fault: the formatter cannot be found during one call
+    // of a longer history). Process-wide, so only meaningful in runs with DRIVER_THREADS=1.
+    let saved_path = case.get("path_env").and_then(Value::as_str).map(|p| {
+        let old = std::env::var_os("PATH");
+        std::env::set_var("PATH", p);
+        old
+    });
     let generated = catch_unwind(AssertUnwindSafe(|| match include {
         None => wgsl_to_wgpu::create_shader_module_embedded(wgsl, options),
         Some(path) => wgsl_to_wgpu::create_shader_module(wgsl, path, options),
     }));
+    if let Some(old) = saved_path {
+        match old {
+            Some(v) => std::env::set_var("PATH", v),
+            None => std::env::remove_var("PATH"),
+        }
+    }
     res["gen_us"] = json!(t_gen.elapsed().as_micros() as u64);
     #[cfg(wgsl_to_wgpu_verif)]
     {
